@@ -16,25 +16,25 @@ Definition is_reply_instr (i : instr) (m : smsg) : Prop :=
 
 Inductive trans (s : rstate) : label -> rstate -> Prop :=
 | T_op c o :
-    c_pc (r_cs s c) = [] -> c_dead (r_cs s c) = false ->
+    c_pc (r_cs s c) = [] -> c_dead (r_cs s c) = false -> ~ In c (r_cancel s) ->
     trans s (LOp c o)
       (with_cs s (upd (r_cs s) c
          (mkC (program s c o) (c_q (r_cs s c)) (c_hand (r_cs s c)) (c_out (r_cs s c)) (c_rd (r_cs s c))
               (c_ctr (r_cs s c)) (is_disc o) (c_ops (r_cs s c) ++ [o]) (c_drops (r_cs s c)))))
 | T_regadd c rest :
     c_pc (r_cs s c) = IRegAdd :: rest -> r_pubs s = [] ->
-    trans s (LRun c) (mkR (r_buf s) (reg_set c [] (r_reg s)) (r_pubs s) (upd (r_cs s) c (set_pc (r_cs s c) rest)))
+    trans s (LRun c) (mkR (r_buf s) (reg_set c [] (r_reg s)) (r_pubs s) (r_cancel s) (upd (r_cs s) c (set_pc (r_cs s c) rest)))
 | T_subadd c sub fs rest m :
     c_pc (r_cs s c) = ISubAdd sub fs :: rest -> c_rd (r_cs s c) = [] -> reg_get c (r_reg s) = Some m ->
     trans s (LRun c)
-      (mkR (r_buf s) (reg_set c (sm_set sub fs m) (r_reg s)) (r_pubs s) (upd (r_cs s) c (set_pc (r_cs s c) rest)))
+      (mkR (r_buf s) (reg_set c (sm_set sub fs m) (r_reg s)) (r_pubs s) (r_cancel s) (upd (r_cs s) c (set_pc (r_cs s c) rest)))
 | T_subadd_none c sub fs rest :
     c_pc (r_cs s c) = ISubAdd sub fs :: rest -> c_rd (r_cs s c) = [] -> reg_get c (r_reg s) = None ->
     trans s (LRun c) (with_cs s (upd (r_cs s) c (set_pc (r_cs s c) rest)))
 | T_subdel c sub rest m :
     c_pc (r_cs s c) = ISubDel sub :: rest -> c_rd (r_cs s c) = [] -> reg_get c (r_reg s) = Some m ->
     trans s (LRun c)
-      (mkR (r_buf s) (reg_set c (sm_del sub m) (r_reg s)) (r_pubs s) (upd (r_cs s) c (set_pc (r_cs s c) rest)))
+      (mkR (r_buf s) (reg_set c (sm_del sub m) (r_reg s)) (r_pubs s) (r_cancel s) (upd (r_cs s) c (set_pc (r_cs s c) rest)))
 | T_subdel_none c sub rest :
     c_pc (r_cs s c) = ISubDel sub :: rest -> c_rd (r_cs s c) = [] -> reg_get c (r_reg s) = None ->
     trans s (LRun c) (with_cs s (upd (r_cs s) c (set_pc (r_cs s c) rest)))
@@ -44,14 +44,14 @@ Inductive trans (s : rstate) : label -> rstate -> Prop :=
 | T_pubbegin c e rest :
     c_pc (r_cs s c) = IPubBegin e :: rest ->
     trans s (LRun c)
-      (mkR (r_buf s) (r_reg s) (c :: r_pubs s)
+      (mkR (r_buf s) (r_reg s) (c :: r_pubs s) (r_cancel s)
          (upd (r_cs s) c
             (mkC (IPub e (c, c_ctr (r_cs s c)) (List.map fst (r_reg s)) :: rest) (c_q (r_cs s c)) (c_hand (r_cs s c))
                  (c_out (r_cs s c)) (c_rd (r_cs s c)) (S (c_ctr (r_cs s c))) (c_dead (r_cs s c))
                  (c_ops (r_cs s c)) (c_drops (r_cs s c)))))
 | T_pubend c e t rest :
     c_pc (r_cs s c) = IPub e t [] :: rest ->
-    trans s (LRun c) (mkR (r_buf s) (r_reg s) (remove_conn c (r_pubs s)) (upd (r_cs s) c (set_pc (r_cs s c) rest)))
+    trans s (LRun c) (mkR (r_buf s) (r_reg s) (remove_conn c (r_pubs s)) (r_cancel s) (upd (r_cs s) c (set_pc (r_cs s c) rest)))
 | T_visit l c c' ord e t rem rest :
     c_pc (r_cs s c) = IPub e t rem :: rest -> In c' rem ->
     (l = LVisit c c' ord \/ (l = LRun c /\ ord = [] /\ exists rem', rem = c' :: rem')) ->
@@ -70,7 +70,7 @@ Inductive trans (s : rstate) : label -> rstate -> Prop :=
 | T_unsuball c rest :
     c_pc (r_cs s c) = IUnsubAll :: rest -> r_pubs s = [] ->
     trans s (LRun c)
-      (mkR (r_buf s) (reg_del c (r_reg s)) (r_pubs s)
+      (mkR (r_buf s) (reg_del c (r_reg s)) (r_pubs s) (r_cancel s)
          (upd (r_cs s) c
             (mkC rest [] None (c_out (r_cs s c)) (c_rd (r_cs s c)) (c_ctr (r_cs s c)) (c_dead (r_cs s c))
                  (c_ops (r_cs s c)) (c_drops (r_cs s c)))))
@@ -85,19 +85,47 @@ Inductive trans (s : rstate) : label -> rstate -> Prop :=
     trans s (LDeliver c)
       (with_cs s (upd (r_cs s) c
          (mkC (c_pc (r_cs s c)) (c_q (r_cs s c)) None (c_out (r_cs s c) ++ [m]) (c_rd (r_cs s c)) (c_ctr (r_cs s c))
-              (c_dead (r_cs s c)) (c_ops (r_cs s c)) (c_drops (r_cs s c))))).
+              (c_dead (r_cs s c)) (c_ops (r_cs s c)) (c_drops (r_cs s c)))))
+(* the session's context is cancelled while its recv loop is at work *)
+| T_cancel c :
+    c_pc (r_cs s c) <> [] -> c_dead (r_cs s c) = false -> ~ In c (r_cancel s) ->
+    trans s (LOp c ODisc) (mkR (r_buf s) (r_reg s) (r_pubs s) (c :: r_cancel s) (r_cs s))
+(* sendServerMsgCtx with a cancelled context: the reply is given up *)
+| T_skip c i rest m :
+    c_pc (r_cs s c) = i :: rest -> is_reply_instr i m -> In c (r_cancel s) ->
+    trans s (LSkip c) (with_cs s (upd (r_cs s) c (set_pc (r_cs s c) rest)))
+(* the loop notices the cancellation: ServeNostr returns, the deferred UnsubscribeAll is next *)
+| T_defer c :
+    c_pc (r_cs s c) = [] -> In c (r_cancel s) ->
+    trans s (LRun c)
+      (mkR (r_buf s) (r_reg s) (r_pubs s) (remove_conn c (r_cancel s))
+         (upd (r_cs s) c
+            (mkC [IUnsubAll] (c_q (r_cs s c)) (c_hand (r_cs s c)) (c_out (r_cs s c)) (c_rd (r_cs s c))
+                 (c_ctr (r_cs s c)) true (c_ops (r_cs s c) ++ [ODisc]) (c_drops (r_cs s c))))).
 
 Lemma pubs_nil (l : list conn) : match l with [] => true | _ => false end = true -> l = [].
 Proof. destruct l; [reflexivity | discriminate]. Qed.
 
+Lemma mem_conn_false c l : mem_conn c l = false <-> ~ In c l.
+Proof. rewrite <- mem_conn_In. destruct (mem_conn c l); split; congruence. Qed.
+
+Lemma is_reply_instrb_spec i : is_reply_instrb i = true -> exists m, is_reply_instr i m.
+Proof. destruct i; cbn; try discriminate; eauto. Qed.
+
 Lemma step_trans s l : step s l = s \/ trans s l (step s l).
 Proof.
   unfold step. destruct (enabled s l) eqn:Hen; [|now left].
-  destruct l as [c o|c|c c' ord|c|c]; cbn [step_enabled].
-  - destruct (c_pc (r_cs s c)) eqn:Hpc; [|now left].
-    destruct (c_dead (r_cs s c)) eqn:Hd; [now left|]. right. now apply T_op.
+  destruct l as [c o|c|c c' ord|c|c|c]; cbn [step_enabled].
+  - destruct (c_pc (r_cs s c)) eqn:Hpc.
+    + destruct (c_dead (r_cs s c)) eqn:Hd; [now left|]. cbn [orb].
+      destruct (mem_conn c (r_cancel s)) eqn:Hm; [now left|]. right. apply T_op; auto. now apply mem_conn_false.
+    + destruct (is_disc o) eqn:Ho; [|now left]. destruct (c_dead (r_cs s c)) eqn:Hd; [now left|].
+      destruct (mem_conn c (r_cancel s)) eqn:Hm; [now left|]. cbn [andb negb]. right.
+      destruct o; try discriminate. apply T_cancel; [congruence | assumption | now apply mem_conn_false].
   - unfold run_instr. cbn [enabled] in Hen.
-    destruct (c_pc (r_cs s c)) as [|i rest] eqn:Hpc; [now left|]. right.
+    destruct (c_pc (r_cs s c)) as [|i rest] eqn:Hpc.
+    { destruct (mem_conn c (r_cancel s)) eqn:Hm; [|now left]. right. apply T_defer; [assumption | now apply mem_conn_In]. }
+    right.
     destruct i.
     + apply T_regadd; [assumption | now apply pubs_nil].
     + destruct (reg_get c (r_reg s)) eqn:Hg.
@@ -128,6 +156,10 @@ Proof.
   - destruct (c_dead (r_cs s c)) eqn:Hd; [now left|].
     destruct (c_hand (r_cs s c)) eqn:Hh; [|now left]. right.
     pose proof (T_deliver s c _ Hd Hh) as T. rewrite Hd in T. exact T.
+  - destruct (c_pc (r_cs s c)) as [|i rest] eqn:Hpc; [now left|].
+    destruct (mem_conn c (r_cancel s)) eqn:Hm; [|now left]. destruct (is_reply_instrb i) eqn:Hi; [|now left].
+    cbn [andb]. right. destruct (is_reply_instrb_spec i Hi) as [m Hm'].
+    eapply T_skip; [eassumption | eassumption | now apply mem_conn_In].
 Qed.
 
 (** proving an invariant: it holds initially and every transition keeps it *)
